@@ -546,7 +546,7 @@ func runConcOnce(p *Program, prefix []Step, block Step, cache map[string]concRef
 	// the block
 	sched := NewSched()
 	sched.DetectBlocked = true
-	sched.Watchdog = 20 * time.Second
+	sched.Watchdog = 120 * time.Second
 	sched.SetArmed(func(label string) bool { return strings.HasPrefix(label, "queue.SQLiteStore.") })
 	sched.Install()
 	defer UninstallSched()
